@@ -38,7 +38,28 @@ def hook(g, rng):
     names = rng.sample(['@i1', '@i2', '@i3', '@n', '@k-2'], rng.randint(1, 3))
     g.ivars = names
     prelude = [('var', nm, [rng.choice(IVALS)]) for nm in names]
-    return prelude + g.sheet(nunits=rng.choice([1, 2, 3]), depth=rng.randint(1, 3))
+    sh = prelude + g.sheet(nunits=rng.choice([1, 2, 3]), depth=rng.randint(1, 3))
+    if rng.random() < 0.5:
+        # a block redefines an interpolated variable and uses it both ways; the rest of the parent and a later sibling rule use the outer one
+        nm = rng.choice(names)
+        rules = []
+
+        def walk(stmts, in_rule=False):
+            for i, s in enumerate(stmts):
+                if s[0] == 'rule':
+                    rules.append((stmts if in_rule else sh, i, s))      # declarations can only follow inside a rule
+                    walk(s[2], True)
+                elif s[0] == 'media':
+                    walk(s[2], in_rule)
+        walk(sh)
+        both = lambda: [('decl', 'content', [('istr', rng.choice(['"', "'"]), [('t', 'x'), ('v', nm), ('t', ' y')])], False), ('decl', 'height', [('var', nm)], False)]
+        if rules:
+            body, i, r = rng.choice(rules)
+            r[2][0:0] = [('var', nm, [rng.choice(IVALS)])] + both()
+            if body is not sh:
+                body[i + 1:i + 1] = both()
+        sh.append(('rule', [[('class', '.w')]], both(), {'sp_brace': True}))
+    return sh
 
 
 def strings_of(stmts, out):
